@@ -301,25 +301,35 @@ func checkEventPool(c *core.Ctx, rule string) {
 	c.Check(okStop, rule, "EventHandlerPool.Trigger", "stops at the first callback that returns false", trigger.Pos(), "false → return", "a false result does not end the traversal")
 }
 
-// rangeIndexPhi: v is the index of a `for i := range x` loop: phi(-1 | 0, i+1) patterns of go/ssa.
+// rangeIndexPhi: v is the index of a `for i := range x` loop: go/ssa lowers range-over-slice to
+// t = phi [entry: -1, back edges: t+1]; idx = t + 1. Returns the phi if v is idx (or the phi itself for i=0;i++ loops).
 func rangeIndexPhi(v ssa.Value) *ssa.Phi {
-	// go/ssa lowers range-over-slice to: t = phi [entry: -1, body: t+1]; idx = t + 1
 	if b, ok := v.(*ssa.BinOp); ok && b.Op.String() == "+" {
 		if c, ok := an.ConstInt(b.Y); ok && c == 1 {
-			if phi, ok := b.X.(*ssa.Phi); ok && len(phi.Edges) == 2 {
-				if c0, ok := an.ConstInt(phi.Edges[0]); ok && c0 == -1 && phi.Edges[1] == ssa.Value(b) {
+			if phi, ok := b.X.(*ssa.Phi); ok && len(phi.Edges) >= 2 {
+				if c0, ok := an.ConstInt(phi.Edges[0]); ok && c0 == -1 {
+					for _, e := range phi.Edges[1:] {
+						if e != ssa.Value(b) {
+							return nil
+						}
+					}
 					return phi
 				}
 			}
 		}
 	}
-	if phi, ok := v.(*ssa.Phi); ok && len(phi.Edges) == 2 {
+	if phi, ok := v.(*ssa.Phi); ok && len(phi.Edges) >= 2 {
 		if c0, ok := an.ConstInt(phi.Edges[0]); ok && c0 == 0 {
-			if b, ok := phi.Edges[1].(*ssa.BinOp); ok && b.Op.String() == "+" && b.X == ssa.Value(phi) {
-				if c1, ok := an.ConstInt(b.Y); ok && c1 == 1 {
-					return phi
+			for _, e := range phi.Edges[1:] {
+				b, ok := e.(*ssa.BinOp)
+				if !ok || b.Op.String() != "+" || b.X != ssa.Value(phi) {
+					return nil
+				}
+				if c1, ok := an.ConstInt(b.Y); !ok || c1 != 1 {
+					return nil
 				}
 			}
+			return phi
 		}
 	}
 	return nil
